@@ -17,44 +17,104 @@ QUERIES = ("pages_iter", "links_out", "links_in", "webentity_prefix_iter", "coun
            "network", "network_in", "network_slow", "we_pages", "dfs_iter", "nodes_iter")
 
 
-def record_history(driver, nsteps):
-    """Run a random history on a file index keeping the whole raw write log."""
+TRUNC = {"lru_trie.dat": "XT", "link_store.dat": "XL"}
+
+
+class FileEvents(object):
+    """File re-creations (`open(path, "wb+")` in traph/traph.py: the constructor and clear()) are not
+    block writes, but they change what is in the files: they are recorded as events of the write log,
+    at their program position, so that a cut may fall between the two re-creations of a clear()."""
+
+    def __init__(self):
+        self.events = []          # (number of block writes issued before, tag)
+
+    def __enter__(self):
+        log = self.events
+
+        def rec_open(path, mode="r", *a, **kw):
+            f = open(path, mode, *a, **kw)
+            tag = TRUNC.get(os.path.basename(str(path)))
+            if tag and "w" in mode:
+                log.append((len(impl.WRITE_LOG), tag))
+            return f
+        impl.tt.open = rec_open
+        return self
+
+    def __exit__(self, *a):
+        try:
+            del impl.tt.open
+        except AttributeError:
+            pass
+
+    def merged(self, step):
+        """The block writes of impl.WRITE_LOG with the file events at their positions."""
+        out, ev = [], list(self.events)
+        for j, w in enumerate(impl.WRITE_LOG):
+            while ev and ev[0][0] <= j:
+                out.append((ev.pop(0)[1], 0, False, b"", step))
+            out.append(w + (step,))
+        for _, tag in ev:
+            out.append((tag, 0, False, b"", step))
+        del self.events[:]
+        return out
+
+
+def _meaning(obs):
+    return {"pages": [l for l, _ in obs.get("pages", [])],
+            "links": [{"s": s, "t": t, "w": w} for s, t, w in obs.get("outs", [])]}
+
+
+def record_history(driver, nsteps, file_events=False):
+    """Run a random history on a file index keeping the whole raw write log.  With `file_events`
+    the re-creations of the two files are part of the log and `after[i]` is what the history
+    completed up to request i means (histories with clear() are not monotone)."""
     default0, rules0 = dict(driver.default), list(driver.rules)
     allw = []          # (tag, offset, is_append, data, step index)
     ram_at = []        # RAM rules in force while step i runs (re-supplied on reopen)
+    after = []
     del impl.WRITE_LOG[:]
-    ix = impl.Index("file", default0, rules0)
+    fe = FileEvents()
+    if file_events:
+        fe.__enter__()
+    ix = None
     ops = []
     try:
-        for w in impl.WRITE_LOG:
-            allw.append(w + (0,))
+        ix = impl.Index("file", default0, rules0)
+        allw += fe.merged(0)
         ram_at.append((default0, list(rules0)))
         obs = impl.observe(ix)
+        after.append(_meaning(obs))
         for i in range(nsteps):
             op = driver.draw(obs)
             ops.append(op)
-            ram = dict(driver.ram)
             del impl.WRITE_LOG[:]
+            del fe.events[:]
+            ram = dict(driver.ram)
             impl.apply_op(ix, op)
-            for w in impl.WRITE_LOG:
-                allw.append(w + (i + 1,))
+            allw += fe.merged(i + 1)
             ram_at.append((dict(driver.default), sorted(ram.items())))
             del impl.WRITE_LOG[:]
             obs = impl.observe(ix)
+            after.append(_meaning(obs))
             if "err" in obs:
                 break
         final = obs
         raw = ix.raw()
     finally:
-        ix.destroy()
+        fe.__exit__()
+        if ix is not None:
+            ix.destroy()
     return {"def": default0, "rules": rules0, "ops": ops, "writes": allw, "ram_at": ram_at,
-            "final": final, "raw": raw}
+            "final": final, "raw": raw, "after": after}
 
 
 def materialize(writes, k, partial=None):
     """Files after the first k writes (+ `partial` bytes of write k if it is an append)."""
     files = {"T": bytearray(), "L": bytearray()}
     for tag, off, app, data, _ in writes[:k]:
+        if tag in ("XT", "XL"):       # the file is re-created empty
+            del files[tag[1]][:]
+            continue
         f = files[tag]
         if off > len(f):
             f.extend(b"\0" * (off - len(f)))
@@ -131,8 +191,11 @@ def probe(folder, default, rules):
     return out
 
 
-def enumerate_cuts(hist, hid, next_id, files_every=7, byte_cuts=True):
-    """All cuts of one recorded history -> rows."""
+def enumerate_cuts(hist, hid, next_id, files_every=7, byte_cuts=True, ref_base=None):
+    """All cuts of one recorded history -> rows.  With `ref_base` (histories with clear()) a cut is
+    compared with what the history completed up to the request it falls in means: entry
+    ref_base + i of the shared table is `after[i]`; a cut in front of the first write of request i
+    is the completed request i - 1."""
     rows = []
     writes = hist["writes"]
     n = len(writes)
@@ -154,7 +217,16 @@ def enumerate_cuts(hist, hid, next_id, files_every=7, byte_cuts=True):
             res = probe(folder, default, rules)
             shutil.rmtree(folder, ignore_errors=True)
             part = bool(len(raw_t) % TRIE_BS or len(raw_l) % LINK_BS)
-            row = {"id": rid, "hist": hid + 1, "k": k, "partial": part, "missing": missing_link,
+            href = hid + 1
+            if ref_base is not None:
+                if k >= n:
+                    i = len(hist["after"]) - 1
+                elif partial is None and (k == 0 or writes[k - 1][4] != step):
+                    i = max(step - 1, 0)
+                else:
+                    i = step
+                href = ref_base + min(i, len(hist["after"]) - 1) + 1
+            row = {"id": rid, "hist": href, "k": k, "partial": part, "missing": missing_link,
                    "pbytes": partial or 0, "step": step}
             row.update(res)
             whole = not part and not missing_link
